@@ -1,6 +1,6 @@
 """C02 — on each node the replicated metadata and the persisted store never disagree."""
 import vlib
-from checks import keyspace_model
+from checks import actor_traces, keyspace_model
 
 ASSUMPTIONS = [
     "one keyspace actor; requests Set/Del/MultiSet/MultiDel/Purge with arbitrary (not window-restricted) timestamps, both sources, "
@@ -9,12 +9,17 @@ ASSUMPTIONS = [
     "a stamp identifies one operation kind (insert or delete); document bytes are a function of (id, stamp)",
     "each transition is replayed on a real KeyspaceActor obtained from a real KeyspaceGroup over a fault-injecting wrapper around MemStore; "
     "the set is observed through the actor's Serialize reply, storage through iter_metadata/get",
+    "long-lived actors (V): single real keyspace actors handle long random request streams (both sources, three origins, bulk requests, purges, storage "
+    "calls failing part-way, a clock that jumps by more than the forgiveness period, late and too-old requests, the motif delete - purge - older write); what "
+    "an actor keeps between requests stays in it; Trace_KeyspaceActor.tla judges the recorded events, the harness compares set and storage after every request",
 ]
 
 
 def run(ctx):
     results = keyspace_model.run_all(ctx)
     cov = keyspace_model.judge(ctx, results, "C02")
+    cov["long_lived_actors"] = actor_traces.long_lived_actors(ctx, [], own_c02=True)
+    cov["traces_validated_against_impl"] += cov["long_lived_actors"]["actors"]
     return vlib.finish(ctx, "model_checking", cov, ASSUMPTIONS)
 
 
